@@ -41,6 +41,9 @@ fn main() {
         usage();
     }
     rt::install_panic_hook();
+    if args[1] == "run" || args[1] == "replay" {
+        rt::start_case_watchdog();
+    }
     match args[1].as_str() {
         "list" => {
             for p in mon::PROPS {
@@ -205,6 +208,7 @@ fn main() {
 /// violation with a generic signature (it is either a panic of the code under
 /// test in a place the monitor did not expect, or a harness bug — both must be seen).
 fn run_case(ctx: &mut Ctx, f: fn(&mut Ctx, u64), idx: u64) {
+    rt::CASE_SEQ.fetch_add(1, std::sync::atomic::Ordering::Relaxed);
     let r = rt::guard_steps(u64::MAX, || f(ctx, idx));
     if let Err(fail) = r {
         let sig = format!("unguarded-{}|{}|-", fail.class(), ctx.lane);
